@@ -49,6 +49,12 @@ def _check_ext(case) -> list[Fail]:
         from vlib.props.c05 import first_diff
 
         f.append(Fail("enc-ref", first_diff(n1, want) or "?", f"got={json.dumps(n1)[:200]} want={json.dumps(want)[:200]}"))
+    # the document must not depend on earlier serializations of the same object
+    jp = extgen.mk_extension(a, probe=True).to_json()
+    if json.loads(jp) != d1:
+        from vlib.props.c05 import first_diff
+
+        f.append(Fail("history", "serialized-between-additions:" + (first_diff(json.loads(jp), d1) or "?"), "document differs when to_json was also called between additions"))
     try:
         e2 = Extension.from_json(j1)
         j2 = e2.to_json()
